@@ -1,25 +1,34 @@
 ------------------------------ MODULE OscClump ------------------------------
 (* L2 model of NetAddr._clump_bundle's accumulator loop and its two call sites, checked against
    the L1 splitter law of OscSize.tla (ValidSplit) after every element: one Feed action = one
-   iteration of `for s, e in elist`.  Each element has a predicted size p (what _calc_* says) and a
-   real encoded size r <= p (PredNotBelow, checked in OscModel).  Sizes use the real constants. *)
+   iteration of `for s, e in elist`.  Each element has a predicted size (what _calc_* says for its kind) and
+   a real encoded size; PredAbove = PredNotBelow per element kind.  Sizes use the real constants. *)
 EXTENDS OscSize
 CONSTANTS N         \* elements per bundle
-\* <<p, r>>: minimal message, small ones, an over-predicted one, sizes that straddle both thresholds
-Pairs == {<<8, 8>>, <<12, 12>>, <<24, 20>>, <<1000, 1000>>, <<6500, 6500>>, <<30000, 30000>>,
-          <<32720, 32720>>, <<65408, 65408>>, <<65484, 65484>>}
+\* Elements come in KINDS: plain messages, nested bundles (own latency, 1..n messages) and nested bundles inside
+\* nested bundles.  For each element the loop uses the size _clump_bundle collects for it - Pred(e): the
+\* message size, or the size of the nested bundle's content (_calc_bndl_dgram_size(e[1:])) - and the law is
+\* judged on the real encoded size EncLen(e).  Sizes straddle both thresholds (8192 and 65504 - 36).
+Msg(z) == [t |-> "m", a |-> <<47, 97>>, args |-> IF z = 0 THEN <<>> ELSE <<[t |-> "b", z |-> z]>>]     \* 8, or 12 + P4(z) bytes
+Over == [t |-> "m", a |-> <<47, 97>>, args |-> <<[t |-> "["], [t |-> "i", hi |-> 0, lo |-> 1], [t |-> "]"]>>]   \* predicted 24, real 16
+Lat1 == [t |-> "lat", b |-> <<0, 0, 0, 1, 0, 0, 0, 0>>]
+Bun(els) == [t |-> "B", time |-> Lat1, el |-> els]
+Msgs == {Msg(0), Msg(1), Over, Msg(988), Msg(6488), Msg(29988), Msg(32708), Msg(65396), Msg(65472)}
+Bundles == {Bun(<<Msg(0)>>), Bun(<<Msg(0), Msg(1), Msg(0)>>), Bun(<<Msg(964)>>), Bun(<<Msg(32684)>>), Bun(<<Msg(65372)>>)}
+Nested == {Bun(<<Bun(<<Msg(0)>>)>>), Bun(<<Msg(0), Bun(<<Msg(940), Over>>)>>), Bun(<<Bun(<<Bun(<<Msg(32644)>>)>>)>>)}
 VARIABLES site, pred, real, st
 vars == <<site, pred, real, st>>
 
 SizeAt(s) == IF s = "sync" THEN Limit - SyncBndl ELSE ClumpDefault
 Init == site \in {"clumped", "sync"} /\ pred = <<>> /\ real = <<>> /\ st = ClumpInit
-Feed == /\ Len(pred) < N
-        /\ \E pr \in Pairs :
-              /\ DgramLen(<<1>>, <<pr[2]>>, ExtraAt(site)) <= Limit        \* Splittable
-              /\ pred' = Append(pred, pr[1]) /\ real' = Append(real, pr[2])
-              /\ st' = ClumpStep(st, pr[1], Len(pred) + 1, SizeAt(site))
-        /\ UNCHANGED site
-Next == Feed
+Ok(e) == Len(pred) < N /\ DgramLen(<<1>>, <<EncLen(e)>>, ExtraAt(site)) <= Limit        \* Splittable
+FeedMsg == \E e \in Msgs : /\ Ok(e) /\ pred' = Append(pred, Pred(e)) /\ real' = Append(real, EncLen(e))
+                           /\ st' = ClumpStep(st, Pred(e), Len(pred) + 1, SizeAt(site)) /\ UNCHANGED site
+FeedBundle == \E e \in Bundles : /\ Ok(e) /\ pred' = Append(pred, Pred(e)) /\ real' = Append(real, EncLen(e))
+                                 /\ st' = ClumpStep(st, Pred(e), Len(pred) + 1, SizeAt(site)) /\ UNCHANGED site
+FeedNested == \E e \in Nested : /\ Ok(e) /\ pred' = Append(pred, Pred(e)) /\ real' = Append(real, EncLen(e))
+                                /\ st' = ClumpStep(st, Pred(e), Len(pred) + 1, SizeAt(site)) /\ UNCHANGED site
+Next == FeedMsg \/ FeedBundle \/ FeedNested
 Spec == Init /\ [][Next]_vars
 
 \* the groups produced so far plus the open one form a valid split of what has been fed
